@@ -134,7 +134,9 @@ Definition pubmat_bytes (m : pubmat) : bytes :=
 
 (* <Class>Pub.__len__, which is what publen() returns for public AND private material
    (PrivKey.publen = super(PrivKey).__len__(), ECDHPriv.publen = ECDHPub.__len__).
-   OpaquePubKey inherits PubKey.__len__ over an empty __pubfields__: 0. *)
+   OpaquePubKey.__len__ = len(self.data) (repair e03112d; before it inherited PubKey.__len__ over an
+   empty __pubfields__: 0 — kept below as pubmat_len_prefix).  For an OpaquePrivKey `data` is the WHOLE stored
+   material, secret part included, because the boundary is unknown for an unknown algorithm. *)
 Definition pubmat_len (m : pubmat) : Z :=
   match m with
   | PRSA n e => mpi_len n + mpi_len e
@@ -143,8 +145,11 @@ Definition pubmat_len (m : pubmat) : Z :=
   | PECDSA c pt => ecpoint_len pt + oid_len c
   | PEdDSA c pt => ecpoint_len pt + oid_len c
   | PECDH c pt _ _ => ecpoint_len pt + kdf_len + oid_len c
-  | POpaque _ => 0
+  | POpaque d => Z.of_nat (length d)
   end.
+(* the code before the repair (kept for the refutation theorem) *)
+Definition pubmat_len_prefix (m : pubmat) : Z :=
+  match m with POpaque _ => 0 | _ => pubmat_len m end.
 
 (* ---------- secret part (PrivKey.__bytearray__ after the public fields) ---------- *)
 (* s_s2k = the String2Key octets after the usage octet as String2Key.__bytearray__ writes them
@@ -161,8 +166,9 @@ Definition sec_tail (sp : secpart) : bytes :=
   ++ (if s_usage sp =? 0 then s_chk sp else []).
 
 (* ---------- the key packet ---------- *)
-(* k_created is the integer calendar.timegm(self.created.timetuple()) — the wall-clock fields of the
-   stored datetime read as UTC (datetime/calendar arithmetic is not modelled further) *)
+(* k_created is the integer calendar.timegm(self.created.utctimetuple()) — the instant for an aware datetime
+   (repair ceba52c; before: timetuple(), the wall-clock fields read as UTC), the fields as they stand for a
+   naive one (datetime/calendar arithmetic is not modelled further) *)
 Record keypkt := { k_sub : bool; k_created : Z; k_alg : Z; k_mat : pubmat; k_sec : option secpart }.
 
 Definition is_private (k : keypkt) : bool := match k_sec k with Some _ => true | None => false end.
@@ -183,9 +189,11 @@ Definition key_tag (k : keypkt) : Z :=
   | None, false => 6 | None, true => 14 | Some _, false => 5 | Some _, true => 7
   end.
 
-(* PrivKeyV4.pubkey(): created, pkalg, __pubfields__, oid, kdf — nothing else *)
+(* PrivKeyV4.pubkey(): created, pkalg, __pubfields__, oid, kdf — nothing else.  Opaque material has no
+   __pubfields__: the fresh OpaquePubKey keeps its empty `data` *)
+Definition pub_mat (m : pubmat) : pubmat := match m with POpaque _ => POpaque [] | _ => m end.
 Definition pubkey_pkt (k : keypkt) : keypkt :=
-  {| k_sub := k_sub k; k_created := k_created k; k_alg := k_alg k; k_mat := k_mat k; k_sec := None |}.
+  {| k_sub := k_sub k; k_created := k_created k; k_alg := k_alg k; k_mat := pub_mat (k_mat k); k_sec := None |}.
 
 Definition pub_packet_body (k : keypkt) : bytes := key_body (pubkey_pkt k).
 Definition sec_packet_body (k : keypkt) : bytes := key_body k.
@@ -324,7 +332,7 @@ Definition wf_pubmat (m : pubmat) : Prop :=
   | PECDSA c pt => wf_point pt
   | PEdDSA c pt => wf_point pt
   | PECDH c pt kh ke => wf_point pt /\ 0 <= kh < 256 /\ 0 <= ke < 256
-  | POpaque _ => False
+  | POpaque _ => False     (* the supported algorithms; opaque material has its own theorems *)
   end.
 Definition wf_pub (k : keypkt) : Prop :=
   0 <= k_created k < 4294967296 /\ 0 <= k_alg k < 256 /\ wf_pubmat (k_mat k).
